@@ -238,6 +238,14 @@ func vxTraceMark(s string) {
 	panic("vxTraceMark: environment-model function, not available in native replay")
 }
 
+func vxFieldChan(obj interface{}, idx int) interface{} {
+	panic("vxFieldChan: environment-model function, not available in native replay")
+}
+
+func vxChanCap(ch interface{}) int {
+	panic("vxChanCap: environment-model function, not available in native replay")
+}
+
 func vxRaceLog(on bool) {
 	panic("vxRaceLog: environment-model function, not available in native replay")
 }
